@@ -2005,6 +2005,27 @@ class TLSConnection(TLSRecordLayer):
                 else: break
             publicKey, serverCertChain, tackExt = result
 
+            # RFC 5246, 7.4.2: the key in the server certificate must be of
+            # the type the negotiated cipher suite authenticates with
+            if isinstance(serverCertChain, X509CertChain) and \
+                    serverCertChain.x509List:
+                cert_alg = serverCertChain.x509List[0].certAlg
+                if cipherSuite in CipherSuite.ecdheEcdsaSuites:
+                    fitting = ("ecdsa", "Ed25519", "Ed448")
+                elif cipherSuite in CipherSuite.dheDsaSuites:
+                    fitting = ("dsa",)
+                elif cipherSuite in CipherSuite.certSuites:
+                    fitting = ("rsa",)
+                else:
+                    fitting = ("rsa", "rsa-pss")
+                if cert_alg not in fitting:
+                    for result in self._sendError(
+                            AlertDescription.illegal_parameter,
+                            "Server certificate with {0} key can't be used "
+                            "with the negotiated cipher suite"
+                            .format(cert_alg)):
+                        yield result
+
             #Check the server's signature, if the server chose an authenticated
             # PFS-enabled ciphersuite
 
